@@ -86,8 +86,13 @@ def run(an: Analysis, rep):
     rep.run(r03f, an, rep)
     rep.run(r03y, an, rep)
     rep.run(r03t, an, rep)
-    from . import c06 as _c06n, c01 as _c01o
+    from . import c06 as _c06n, c01 as _c01o, c04 as _c04y
     from .common import SharedRules as _SR3n
+    from . import c11 as _c11n3
+    rep.run(_c11n3.r11n, an, _SR3n(rep, "R03.N3", "the names the encoder turns into flag bits carry CPython's values under every interpreter version (shared with C11's R11.N): 'flags ... are as described' - "
+                                                   "a table that is right for 3.8+ only writes another future flag on 3.7"))
+    rep.run(lambda a_, r_: _c04y.r04f(a_, r_, roundtrip=True), an, _SR3n(rep, "R03.Y2", "from_code then to_code folded over witness code objects (C04's R04.W witnesses): the flags word written for a "
+                                                                                   "generator / coroutine / async generator is CPython's (an extra CO_GENERATOR on an async generator changes what inspect says)"))
     rep.run(_c06n.r06n, an, _SR3n(rep, "R03.N", "normalize folded over witness data full of artefacts (shared with C06's R06.N): 'decoding that code object again gives data equal to the input up to "
                                                 "normalization' compares through normalize, which has to reach every nested code object"))
     sho3 = _SR3n(rep, "R03.O", "the shift by the first line number moves every line by exactly that amount, in both directions (shared with C01's R01.5): 'each instruction carries the given line' - also a line "
@@ -1182,7 +1187,9 @@ def package_evaluator(an, module, V, max_iter=4096, stubs=None):
     stubs = stubs or {}
     ev = ObjEval(lambda name: None if (name in amb or name in stubs) else fns.get(name),
                  extra={"dis": dis_, "opcode": dis_, "EXTENDED_ARG": R["EXTENDED_ARG"], "HAVE_ARGUMENT": R["HAVE_ARGUMENT"], "opmap": om, "opname": opname,
-                        "sys": {"version_info": tuple(V) + (0, "final", 0)}, "ctypes": {"sizeof": lambda x: {"c_int": 4}[x], "c_int": lambda *a: "c_int"},
+                        "sys": {"version_info": tuple(V) + (0, "final", 0), "flags": {"optimize": 0, "debug": 0, "bytes_warning": 0, "dont_write_bytecode": 0}, "maxsize": 2 ** 63 - 1},
+                        "codeop": {"PyCF_DONT_IMPLY_DEDENT": 0x200, "PyCF_ALLOW_INCOMPLETE_INPUT": 0x4000},
+                        "ast": {"PyCF_ONLY_AST": 0x400, "PyCF_TYPE_COMMENTS": 0x1000, "PyCF_ALLOW_TOP_LEVEL_AWAIT": 0x2000}, "ctypes": {"sizeof": lambda x: {"c_int": 4}[x], "c_int": lambda *a: "c_int"},
                         "Counter": _c.Counter, "isnan": _m.isnan, "copysign": _m.copysign, "NotImplementedError": NotImplementedError, "ValueError": ValueError,
                         "AssertionError": AssertionError, "OrderedDict": dict, "bisect_left": __import__("bisect").bisect_left, "bisect_right": __import__("bisect").bisect_right,
                         "bisect": {"bisect_left": __import__("bisect").bisect_left, "bisect_right": __import__("bisect").bisect_right, "bisect": __import__("bisect").bisect},
@@ -1259,6 +1266,8 @@ def _layout_witnesses():
          [[("LOAD_CONST", K("doc")), ("POP_TOP", None), ("LOAD_CONST", K(2)), ("RETURN_VALUE", None)]], (), "doc"),
         ("a function without docstring whose first constant is not a string",
          [[("LOAD_CONST", K(5)), ("POP_TOP", None), ("LOAD_CONST", K("s")), ("RETURN_VALUE", None)]], (), "nodoc"),
+        ("a function without docstring: a string pinned at index 0 that is not the first constant met",
+         [[("LOAD_CONST", K(1, 1)), ("POP_TOP", None), ("LOAD_CONST", K("s", 0)), ("RETURN_VALUE", None)]], (), "nodoc-refused"),
         # entries no instruction uses come after the ones in use (that is where the decoder found them when it left them without a position)
         ("unreferenced names and constants behind the ones in use",
          [[("LOAD_NAME", N("first")), ("LOAD_ATTR", N("attr")), ("LOAD_CONST", K(1)), ("RETURN_VALUE", None)]], (), None, [N("second"), N("third"), K("unused")]),
@@ -1295,9 +1304,14 @@ def _layout_bad(an, g, V, W):
         try:
             blocks = tuple(tuple(mk["Instruction"](name=ins[0], arg=arg_obj(ins[1]), _n_args_override=(ins[2] if len(ins) > 2 else None), line_number=1) for ins in b) for b in wb)
             btype = None if kind is None else mk["Function"](mk["Args"](), "doc" if kind == "doc" else None, None)
+            if kind == "nodoc-refused":
+                kind_check = "nodoc"
+            else:
+                kind_check = kind
             res = ev.call_method(g.node, blocks, tuple(arg_obj(x) for x in extra_specs), tuple(freevars), btype)
         except BlockOutcome as o:
-            bad.append(f"{wname}: the layout stops at `{norm_src(o.node)[:60]}`")
+            if kind != "nodoc-refused":  # (that witness contradicts itself - a str at index 0 and no docstring: refusing it is right)
+                bad.append(f"{wname}: the layout stops at `{norm_src(o.node)[:60]}`")
             continue
         except AnalysisError:
             raise
@@ -1355,11 +1369,11 @@ def _layout_bad(an, g, V, W):
                     ek.append(sp[1])
             if list(names) != en or list(consts) != ek:
                 why = f"co_names / co_consts are {names} / {consts}; entries without a position take the next free one in order of first use, unreferenced ones last: {tuple(en)} / {tuple(ek)}"
-        if not why and kind == "nodoc" and consts and isinstance(consts[0], str):
+        if not why and kind_check == "nodoc" and consts and isinstance(consts[0], str):
             why = f"co_consts is {consts}: CPython reads a str at index 0 as the docstring of a function, the data says it has none"
-        if not why and kind == "doc" and (not consts or consts[0] != "doc"):
+        if not why and kind_check == "doc" and (not consts or consts[0] != "doc"):
             why = f"co_consts is {consts}: the docstring 'doc' is not its first entry"
-        if not why and kind == "nodoc" and len(consts) != len({(type(c), c) for c in consts}):
+        if not why and kind_check == "nodoc" and len(consts) != len({(type(c), c) for c in consts}):
             why = f"co_consts is {consts}: an entry is listed twice"
         if why:
             bad.append(f"{wname}: {why}")
